@@ -89,7 +89,12 @@ Section Agg.
 
   Definition bag_cmp (a b : bagkey) : comparison :=
     match a, b with
-    | BNum x, BNum y => if x <? y then Lt else if x =? y then Eq else Gt
+    | BNum x, BNum y =>
+        (* never reached with a NaN (fill maps NaN to BNan); NaN is ordered last so that the
+           order is total *)
+        if nisnan x then (if nisnan y then Eq else Gt)
+        else if nisnan y then Lt
+        else if x <? y then Lt else if x =? y then Eq else Gt
     | BNum _, _ => Lt
     | _, BNum _ => Gt
     | BNan, BNan => Eq
@@ -219,14 +224,14 @@ Section Agg.
            l2 := l2 a; lv := lv a |}
     | LDeviate =>
         let e := le a + le b in
-        if le a =? nzero then {| le := e; l1 := l1 b; l2 := l2 b; lv := lv a |}
-        else if le b =? nzero then {| le := e; l1 := l1 a; l2 := l2 a; lv := lv a |}
-        else
-          let m := (le a * l1 a + le b * l1 b) / (le a + le b) in
-          {| le := e; l1 := m;
-             l2 := ((((l2 a + l2 b) + (le a * l1 a) * l1 a) + (le b * l1 b) * l1 b)
-                    - (ntwo * m) * (le a * l1 a + le b * l1 b)) + (m * m) * e;
-             lv := lv a |}
+        let m := (le a * l1 a + le b * l1 b) / (le a + le b) in
+        {| le := e;
+           l1 := if le a =? nzero then l1 b else if le b =? nzero then l1 a else m;
+           l2 := if le a =? nzero then l2 b
+                 else if le b =? nzero then l2 a
+                 else ((((l2 a + l2 b) + (le a * l1 a) * l1 a) + (le b * l1 b) * l1 b)
+                       - (ntwo * m) * (le a * l1 a + le b * l1 b)) + (m * m) * e;
+           lv := lv a |}
     | LMin => {| le := le a + le b; l1 := minplus (l1 a) (l1 b); l2 := l2 a; lv := lv a |}
     | LMax => {| le := le a + le b; l1 := maxplus (l1 a) (l1 b); l2 := l2 a; lv := lv a |}
     | LBag _ => {| le := le a + le b; l1 := l1 a; l2 := l2 a; lv := bag_merge (lv a) (lv b) |}
